@@ -2532,6 +2532,10 @@ class x86_mn(x86_mn_base):
                         else:
                             NEVER
                     c = ord(bin.readbs())
+                    if m.modifs[cr] or m.modifs[dr]:
+                        # MOV to/from CRn/DRn: the mod field is ignored,
+                        # r/m always names a general register (SDM vol. 2)
+                        c |= 0xC0
                     re, modr = x86mndb.get_afs(bin, c, self.admode)
                     mafs = dict(x86mndb.get_afs_re(re+reg_cat))
                     if m.modifs[w8]:
